@@ -1,4 +1,5 @@
 import Votca.Model.C12
+import Driver.C12R
 /-! line-protocol handlers for C12 (core only) -/
 namespace Driver.C12
 open Votca Votca.C12
@@ -157,6 +158,7 @@ def handle (args : List String) : Verdict :=
   | "akima" :: r => handleAkima r
   | "smooth" :: r => handleSmooth r
   | "fitrepro" :: r => handleFit r
+  | "resample" :: r => Driver.C12R.handle r
   | _ => bad "unknown op"
 
 end Driver.C12
